@@ -86,16 +86,17 @@ class SchedEngine(Engine):
         cap = caps[0]
         rv = f in NO_RECV_CANCEL
         if maxc >= 2:
-            # a woken-then-cancelled async receiver next to a parked sync receiver (wake must be passed on);
-            # two pending senders of which the woken one is cancelled (cap >= 2: the slot stays free)
-            return ["%s %d 300 7 | PS: s s | CS: r r | C: %s" % (f, cap, "r" if rv else "rc"),
-                    "%s %d 300 8 | P: s s sc | P: s s | CS: r D" % (f, max(cap, 2) if cap else 0)]
+            # a woken-then-dropped async receive next to a parked sync receiver (the wake must be passed on);
+            # two pending senders of which the woken one is dropped un-polled (cap >= 2: the slot stays free
+            # and the only receiver stays alive but idle, op K)
+            return ["%s %d 200 7 | PS: s s | CS: r r | C: %s" % (f, cap, "r" if rv else "rw"),
+                    "%s %d 200 8 | P: s s sw | P: s | CS: r %s" % (f, max(cap, 2) if cap else 0, "K" if f == "mpmcba" else "D")]
         if maxp >= 2:
             # the last sender leaves while the async receiver registers; re-poll with another waker
-            return ["%s %d 300 9 | P: s | P: | C: r r D" % (f, cap),
-                    "%s %d 300 10 | P: s s | PS: s | C: rp rp %s D" % (f, cap, "r" if rv else "rc")]
-        return ["%s %d 300 11 | P: s s s | C: rp rp %s D" % (f, cap, "r" if rv else "rc"),
-                "%s %d 300 12 | P: s ts sc s | C: %s r D" % (f, cap, "r" if rv else "rt")]
+            return ["%s %d 200 9 | P: s | P: | C: r r D" % (f, cap),
+                    "%s %d 200 10 | P: s s | PS: s | C: rp rp %s D" % (f, cap, "r" if rv else "rw")]
+        return ["%s %d 200 11 | P: s s s | C: rp rp %s D" % (f, cap, "r" if rv else "rw"),
+                "%s %d 200 12 | P: s ts sw s | C: %s r D" % (f, cap, "r" if rv else "rt")]
 
     # ------------------------------------------------------------------ generators
     def gen(self, rng, tier):
@@ -136,7 +137,7 @@ class SchedEngine(Engine):
             if maxp > 1 and rng.chance(1, 4):
                 parts.append("PS: " + " ".join(rng.weighted([("s", 6), ("ts", 3)]) for _ in range(n)))
                 continue
-            w = [("s", 6), ("ts", 2)] + ([("sc", 3)] if send_cancel else [])
+            w = [("s", 6), ("ts", 2)] + ([("sc", 2), ("sw", 2)] if send_cancel else [])
             parts.append("P: " + " ".join(rng.weighted(w) for _ in range(n)))
         for _ in range(nc):
             n = rng.below(4)
@@ -144,10 +145,12 @@ class SchedEngine(Engine):
                 ops = [rng.weighted([("r", 5), ("tr", 2), ("rt", 2)]) for _ in range(n)]
                 label = "CS: "
             else:
-                w = [("r", 4), ("tr", 2), ("rp", 3)] + ([("rc", 3), ("rt", 2)] if recv_cancel else [])
+                w = [("r", 4), ("tr", 2), ("rp", 3)] + ([("rc", 2), ("rw", 2), ("rt", 2)] if recv_cancel else [])
                 ops = [rng.weighted(w) for _ in range(n)]
                 label = "C: "
-            if rng.chance(5, 6):
+            if f == "mpmcba" and rng.chance(1, 5):
+                ops.append("K")
+            elif rng.chance(5, 6):
                 ops.append("D")
             parts.append(label + " ".join(ops))
         return "%s %d %d %d | %s" % (f, cap, self.runs(tier), 1 + rng.below(1 << 30), " | ".join(parts))
@@ -160,16 +163,16 @@ class SchedEngine(Engine):
         asy = f == "spmca"
         n = 2 + rng.below(4)
         # one pending send future at a time (F-spmc-sendwaker: the sender has a single waker slot)
-        pw = [("s", 7), ("ts", 2)] + ([("sc", 2)] if asy else [])
+        pw = [("s", 7), ("ts", 2)] + ([("sc", 1), ("sw", 1)] if asy else [])
         plabel = "P: "
         if not asy and rng.chance(1, 4):
-            plabel, pw = "PA: ", [("s", 7), ("ts", 2), ("sc", 2)]
+            plabel, pw = "PA: ", [("s", 7), ("ts", 2), ("sc", 1), ("sw", 1)]
         parts = [plabel + " ".join(rng.weighted(pw) for _ in range(n))]
         for _ in range(nc):
             k = rng.below(4)
             a = asy != rng.chance(1, 4)     # mostly the flavour's kind, sometimes the other one
             label = ("C: " if a == asy else ("CA: " if a else "CS: "))
-            w = [("r", 5), ("tr", 2), ("rt", 2)] + ([("rc", 2), ("rp", 2)] if a else [])
+            w = [("r", 5), ("tr", 2), ("rt", 2)] + ([("rc", 1), ("rw", 1), ("rp", 2)] if a else [])
             ops = [rng.weighted(w) for _ in range(k)]
             ops.append(rng.weighted([("D", 6), ("dc", 3), ("cl", 2), ("", 1)]))
             parts.append(label + " ".join(o for o in ops if o))
@@ -196,7 +199,7 @@ class SchedEngine(Engine):
             for _ in range(rng.below(5)):
                 w = [("tr", 3), ("rt", 3), ("sub1", 1), ("sub2", 2), ("uns1", 1), ("uns2", 1), ("cln", 2), ("clk", 1)]
                 if a:
-                    w += [("rc", 2), ("rp", 2)]
+                    w += [("rc", 1), ("rw", 1), ("rp", 2)]
                 ops.append(rng.weighted(w))
             # `r` only as part of the final drain: a receiver without a matching publication would wait
             # for the last sender anyway, which is what D does
@@ -244,16 +247,16 @@ class SchedEngine(Engine):
 CORPUS = {
     # (1) the lagging receiver is dropped / closed while the producer is parked on the full ring and the other
     #     receiver has caught up; (2) the sender goes away while receivers are parked on the empty ring
-    "spmc": ["spmc 1 300 21 | P: s s s | C: r r r D | C: dc",
-             "spmc 2 300 22 | P: s s | C: D | C: D | CA: r D"],
-    "spmca": ["spmca 1 300 23 | P: s s s | C: r r r D | C: cl",
-              "spmca 2 300 24 | P: s sc s | C: D | C: rp D | CS: rt D"],
+    "spmc": ["spmc 1 200 21 | P: s s s | C: r r r D | C: dc",
+             "spmc 2 200 22 | P: s s | C: D | C: D | CA: r D"],
+    "spmca": ["spmca 1 200 23 | P: s s s | C: r r r D | C: cl",
+              "spmca 2 200 24 | P: s sw s | C: D | C: rp D | CS: rt D"],
     # (1) a receiver clone is made while the last sender leaves; (2) a timed receive is woken by a delivery
     #     right before the last sender leaves
-    "topic": ["topic 8 300 31 | P: p1 | C: sub1 sub2 cln D",
-              "topic 8 300 32 | P: p1 | P: p2 | C: sub1 rt rt D | C: sub2 cln rt tr D"],
-    "topica": ["topica 8 300 33 | P: p1 p1 | C: sub1 sub2 cln rp D",
-               "topica 2 300 34 | P: p1 p2 | PS: p2 | C: sub1 rc rt D | CS: sub2 uns2 sub2 rt D"],
+    "topic": ["topic 8 200 31 | P: p1 | C: sub1 sub2 cln D",
+              "topic 8 200 32 | P: p1 | P: p2 | C: sub1 rt rt D | C: sub2 cln rt tr D"],
+    "topica": ["topica 8 200 33 | P: p1 p1 | C: sub1 sub2 cln rp D | CS: sub1 cln D",
+               "topica 2 200 34 | P: p1 p2 | PS: p2 | C: sub1 rw rt D | CS: sub2 uns2 sub2 rt D"],
 }
 
 
@@ -284,7 +287,7 @@ _WHAT = {
     "C05": (_P2P + _SPMC + _TOPIC, ["mpmcba", "spmc", "spmca", "mpmcb"],
             "deadlock (a thread parked forever) and step-limit (livelock)"),
     "C06": (ASYNC_P2P + _SPMC + _TOPIC, ["spsca", "mpmcba", "mpscba", "mpscua", "mpmcua", "spmca"],
-            "missed-wake: a thread stuck inside block_on (its waker is never invoked), after cancelled / re-polled futures, mixed sync+async handles"),
+            "missed-wake: a thread stuck inside block_on (its waker is never invoked) after cancelled / re-polled futures; cancel-swallowed-wake: any thread (sync or async) stuck after a pending or woken future was dropped; mixed sync+async handles"),
     "C07": (_SPMC, None, "broadcast order / gap / dup per consumer, Disconnected only after the view is drained, backpressure released when a lagging consumer is dropped or closed"),
     "C08": (_TOPIC, None, "topic routing (only subscribed topics, publish order, at most once, nothing lost below capacity), Disconnected iff every sender handle is gone and the mailbox drained"),
     "C09": (SYNC_P2P + ASYNC_P2P, None, "drop counters: leak / double drop at teardown (also for cancelled send futures)"),
